@@ -82,6 +82,15 @@ def check(case, rec):
             loaded = IndxIO.load(f)
         compare_loaded(case, loaded)
         entries, common, _ = loaded
+        # save -> load -> save: what was loaded (read-only arrays backed by the file mapping) is saved again to another
+        # file and must give the same bytes
+        path2 = os.path.join(G.scratch_dir(), "c10b.indx")
+        with libcall("IndxIO.save(the loaded parts)"):
+            with open(path2, "wb") as f2:
+                IndxIO.save(f2, dict(entries), common, numpy.dtype(numpy.uint32))
+        with open(path2, "rb") as f2, open(path, "rb") as f1:
+            if f2.read() != f1.read():
+                raise Violation("save(load(save(x))) differs from save(x) byte-wise", sig="save-load-save not stable")
         shape = index_shape(case)
         with libcall("iindex(loaded parts)"):
             rebuilt = iindex({k: numpy.array(v) for k, v in entries.items()}, common, shape)
